@@ -179,11 +179,19 @@ func verifC14StartReading() {
 
 	b := make([]byte, 8)
 	for i := 0; i < nFrames; i++ {
+		if len(t.recvChan) == 0 {
+			verifAssert(false, "frame-delivered") // reading would block: a frame is missing
+			return
+		}
 		n, addr, err := t.readFromContext(context.Background(), b)
 		verifAssert(err == nil, "frame-delivered")
 		verifAssert(n == len(want[i]), "frame-length")
 		verifAssert(verifBytesEq(b[:n], want[i]), "frame-contents")
 		verifAssert(addr == conn.remote, "peer-address")
+	}
+	if len(t.recvChan) == 0 {
+		verifAssert(false, "stream-end-is-reported")
+		return
 	}
 	n, _, err := t.readFromContext(context.Background(), b)
 	verifAssert(verifAnd(err != nil, n == 0), "stream-end=>error-not-data")
